@@ -308,7 +308,7 @@ func init() {
 	register(&propertySpec{
 		ID:      "C18",
 		Explain: "Static error-flow, provenance and table-agreement rules for the service layer. Does not decide equality of results with direct System calls, escaping, or URI normalisation (DWIMURI is value-level).",
-		Rules:   []ruleFn{ruleLimitRefuses, ruleSvcErr, ruleParamValue, ruleParamAgree, ruleHTTPErrors, ruleRespLast, ruleJSONQuote("C18", "service"), ruleParamPresence, ruleTypedNil("C18"), ruleFmtConst, ruleURIPathWins, ruleReqDecodeStrict},
+		Rules:   []ruleFn{ruleKeysOwnCtx("C18"), ruleLimitRefuses, ruleSvcErr, ruleParamValue, ruleParamAgree, ruleHTTPErrors, ruleRespLast, ruleJSONQuote("C18", "service"), ruleParamPresence, ruleTypedNil("C18"), ruleFmtConst, ruleURIPathWins, ruleReqDecodeStrict},
 	})
 }
 
